@@ -2,7 +2,6 @@
 package c11
 
 import (
-	"syscall"
 	"bytes"
 	"encoding/json"
 	"errors"
@@ -12,6 +11,7 @@ import (
 	"path/filepath"
 	"sort"
 	"strings"
+	"syscall"
 	"testing"
 
 	"github.com/la5nta/wl2k-go/fbb"
@@ -27,7 +27,7 @@ import (
 
 func TestMain(m *testing.M) {
 	harness.Property("C11",
-		"case = mailbox content (0..4 messages per folder, some with X-Unread / a stale X-FilePath line) + one operation {ProcessInbound, AddOut, SetSent, SetUnread(true|false)} + its message (60 B..8 KiB; short lines, long lines, blank and header-like lines, binary attachments, empty last attachment). The operation runs once in the mboxop helper under strace; the recorded calls on the mailbox tree are replayed onto the pre-state and every crash state is materialised: before/after every tree-changing call and after every prefix length of every write (all lengths for writes <= 1 KiB; otherwise the first and last 64, three positions around every CRLF and a seeded sample of 64). In a quarter of the SetSent cases the sent folder is a symbolic link to a directory on another file system (the kernel refuses the rename with EXDEV; a library that gives up loudly leaves no crash state, one that falls back to copying is judged at every step of the copy). For a third of the storing cases up to four recovered states (call boundaries) become the pre-state - left-overs and hard links included - of a second exploration: the station restarts, SetUnread is called on the message and every crash state of that call is judged too. One evaluation = one crash state judged with a fresh DirHandler. Non-trivial = crash state strictly between the first and the last tree-changing call; distinct by hash(case, call index, prefix length).",
+		"case = mailbox content (0..4 messages per folder, some with X-Unread / a stale X-FilePath line; in a quarter of the cases 1..3 temporary files left by earlier interrupted writes of other messages) + one operation {ProcessInbound, AddOut, SetSent, SetUnread(true|false)} + its message (60 B..8 KiB; short lines, long lines, blank and header-like lines, binary attachments, empty last attachment). The operation runs once in the mboxop helper under strace; the recorded calls on the mailbox tree are replayed onto the pre-state and every crash state is materialised: before/after every tree-changing call and after every prefix length of every write (all lengths for writes <= 1 KiB; otherwise the first and last 64, three positions around every CRLF and a seeded sample of 64). In a quarter of the SetSent cases the sent folder is a symbolic link to a directory on another file system (the kernel refuses the rename with EXDEV; a library that gives up loudly leaves no crash state, one that falls back to copying is judged at every step of the copy). For a third of the storing cases up to four recovered states (call boundaries) become the pre-state - left-overs and hard links included - of a second exploration: the station restarts, SetUnread is called on the message and every crash state of that call is judged too. One evaluation = one crash state judged with a fresh DirHandler. Non-trivial = crash state strictly between the first and the last tree-changing call; distinct by hash(case, call index, prefix length).",
 		"crash = death of the process: the kernel applies system calls in order and a write may be cut at any byte; power loss (reordering of unsynced data) is outside the statement",
 		"the replayed final tree must equal the tree the helper really left, and the pre-state itself must pass the oracle; otherwise the run is reported as a harness problem (inconclusive), never as a violation",
 		"'intact' is judged through the API: listing of the folder, message re-serialised, compared modulo X-FilePath (which OpenMessage sets) — and modulo X-Unread for the message whose flag is being rewritten",
@@ -64,12 +64,21 @@ type Case struct {
 	Folder string   `json:"folder,omitempty"`
 	Unread bool     `json:"unread,omitempty"`
 	// set_sent: the peer rejected the proposal (it already has the message); SetSent(mid, true)
-	Rejected bool   `json:"rejected,omitempty"`
+	Rejected bool `json:"rejected,omitempty"`
 	// set_sent: the sent folder is a symbolic link to a directory on another file system (a second disk, a memory
 	// card), so that a rename from the outbox is refused by the kernel (EXDEV)
 	SentElsewhere bool `json:"sent_elsewhere,omitempty"`
-	Seed   uint64   `json:"seed"` // for the sampled prefix lengths of large writes
-	Shape  string   `json:"shape,omitempty"`
+	// Leftovers: temporary files that earlier interrupted writes (of other messages) left in the folders
+	Leftovers []Leftover `json:"leftovers,omitempty"`
+	Seed      uint64     `json:"seed"` // for the sampled prefix lengths of large writes
+	Shape     string     `json:"shape,omitempty"`
+}
+
+// Leftover is a file as an interrupted write leaves it: ".<MID>.b2f.tmp" holding a prefix of (or a whole) message.
+type Leftover struct {
+	Folder string `json:"folder"`
+	Name   string `json:"name"`
+	Data   []byte `json:"data"`
 }
 
 // targetExt is the extension spelling of the stored file the operation works on (set_unread, set_sent).
@@ -570,6 +579,11 @@ func runFrom(c Case, from *fstrace.Snapshot, depth int) (sig, msg string, st sta
 				return "", "", st, problem("%v", err)
 			}
 		}
+		for _, l := range c.Leftovers {
+			if err := os.WriteFile(filepath.Join(root, l.Folder, l.Name), l.Data, 0o644); err != nil {
+				return "", "", st, problem("%v", err)
+			}
+		}
 	}
 	var alias map[string]string
 	if c.SentElsewhere && !c.Fresh {
@@ -915,6 +929,16 @@ func genCase(t *rapid.T) Case {
 			c.Stored = append(c.Stored, st)
 		}
 	}
+	if !empty && rapid.IntRange(0, 3).Draw(t, "leftovers") == 0 {
+		// one to three interrupted writes of other messages happened in a folder before: their temporary files are
+		// still there (neighbours in the directory listing), each a prefix of a message or a whole one
+		f := rapid.SampledFrom([]string{"in", "in", "out", "sent"}).Draw(t, "left_folder")
+		for i, k := 0, rapid.IntRange(1, 3).Draw(t, "left_n"); i < k; i++ {
+			b := genMsg(t, fmt.Sprintf("LEFT%d", i+1), 400, fmt.Sprintf("left%d", i)).Bytes()
+			cut := rapid.IntRange(0, len(b)).Draw(t, "left_cut")
+			c.Leftovers = append(c.Leftovers, Leftover{Folder: f, Name: fmt.Sprintf(".LEFT%d.b2f.tmp", i+1), Data: b[:cut]})
+		}
+	}
 	pick := func(f string) Stored {
 		var l []Stored
 		for _, s := range c.Stored {
@@ -998,6 +1022,9 @@ func account(c Case, st stats) {
 	}
 	if c.Fresh {
 		harness.Label("case:fresh-mailbox")
+	}
+	if len(c.Leftovers) > 0 {
+		harness.Label(fmt.Sprintf("pre-state:%d temporary file(s) left by earlier interrupted writes", len(c.Leftovers)))
 	}
 	if st.elsewhere {
 		harness.Label("case:sent-folder-on-another-file-system")
